@@ -60,3 +60,15 @@ Print Assumptions C12_accepts_multiples.
 Theorem C12_complete_never_refused : forall ub s D, is_complete D = true -> exists r, borda ub s D = Ok r.
 Proof. exact borda_complete_never_refused. Qed.
 Print Assumptions C12_complete_never_refused.
+
+(** the float side (FloatMeans.v): the library compares the binary64 quotients total / count; for totals up to 2^20 and counts up to 2^10
+    they compare exactly like the means compared by cross-multiplication in the model.  This theorem, and only this one, rests on the
+    real-number axioms of the standard library (listed below by Print Assumptions). *)
+From Coq Require Import Reals.
+From Flocq Require Import Core.
+From Corankco Require Import FloatMeans.
+Theorem C12_float_means_compare_exactly : forall a b c d : Z,
+  (0 <= a <= 2 ^ 20)%Z -> (0 <= c <= 2 ^ 20)%Z -> (1 <= b <= 2 ^ 10)%Z -> (1 <= d <= 2 ^ 10)%Z ->
+  Rcompare (rnd (IZR a / IZR b)) (rnd (IZR c / IZR d)) = Z.compare (a * d) (c * b).
+Proof. exact float_quotient_compare. Qed.
+Print Assumptions C12_float_means_compare_exactly.
